@@ -141,6 +141,15 @@ def den_term(ctx, eq):
                 c1 = z3.Select(C1, z3.Select(E1, gv.t))
                 facts.append(mul_linear(c0, c1 - c0, V(z3.Select(T0, z3.Select(E0, gv.t)))))
                 facts.append(c0 + (c1 - c0) == c1)
+        # ghost heap snapshots in scope (H = heap_now()): the frame lemma between each snapshot and the current state
+        for gname, gv in ctx.st.ghost.items():
+            if getattr(gv, 'ty', None) is not None and gv.ty.kind == 'heap' and gv.meta is not ctx.st:
+                try:
+                    Ch, Th, Eh, nh = arrays_of(gv.meta, eq)
+                except Exception:
+                    continue
+                facts += unfold(Ch, Th, Eh, nh)
+                facts += [lemma_frame((Ch, Th, Eh), B, nh)]
     facts += mul_axioms()
     ctx.side.extend(facts)
     return S(C1, T1, E1, n1)
